@@ -399,7 +399,9 @@ def p_structure_shared_cache(tn, outs, a):
     cache = set()
     for letter in a["order"]:
         meth = {"A": tn.antidiag_gauge_, "D": tn.diagonal_reduce_, "C": tn.column_reduce_}[letter]
-        meth(output_inds=_oi(outs, a), cache=cache)
+        # always the declared labels: after a diagonal reduction an outer label may also be a bond, so a LATER call
+        # inferring "labels occurring once" would rightly no longer see it (documented: pass output_inds then)
+        meth(output_inds=outs, cache=cache)
     return tn, 1
 
 
@@ -1810,7 +1812,7 @@ def oracle_stream(ctx):
         P("multiply", {"x": x, "spread": sp}, mult_factor=x)
 
 
-CIRC_1Q = ["H", "X", "X", "Y", "Z", "Z", "S", "T", "RZ", "RX", "RY", "X_1_2"]
+CIRC_1Q = ["H", "X", "X", "X", "Y", "Y", "Z", "Z", "Z", "S", "T", "RZ", "RZ", "RX", "RY", "X_1_2"]
 CIRC_2Q = ["CNOT", "CX", "CZ", "CY", "SWAP", "ISWAP", "RZZ"]
 
 
@@ -1826,7 +1828,9 @@ def circuit_stream(ctx):
     for n in range(ctx.n(14, 150)):
         nq = rng.choice([1, 2, 2, 3])
         circ = qtn.Circuit(nq)
-        contract = rng.choice([False, False, "split-gate", "swap-split-gate", "auto-split-gate", True])
+        which = rng.choice(["uni", "uni", "uni", "psi", "amp"])
+        # get_uni needs the gates kept as separate (lazy) tensors
+        contract = rng.choice([False, False, "split-gate", "swap-split-gate", "auto-split-gate"] + ([True] if which != "uni" else []))
         glist = []
         for _ in range(rng.randint(2, 8)):
             if nq >= 2 and rng.random() < 0.35:
@@ -1842,7 +1846,6 @@ def circuit_stream(ctx):
                 glist.append([g, params, q])
             except Exception:
                 ctx.bump("circuit:gate_not_available:" + g)
-        which = rng.choice(["uni", "uni", "uni", "psi", "amp"])
         if which == "uni":
             tn = circ.get_uni()
         else:
@@ -1867,8 +1870,9 @@ def circuit_stream(ctx):
             for name in ("antidiag_gauge", "diagonal_reduce", "column_reduce"):
                 oracle_pass(ctx, netid, tn, name, {"outs": given, "circuit": glist}, outs, False)
             for seq in ["A", "AD", "ADCR"] + rng.sample(["ADCRS", "DARC", "ADCRSL", "CAD"], 1):
-                oracle_pass(ctx, netid, tn, "full_simplify", {"seq": seq, "eq": rng.choice([False, False, True]), "outs": given,
-                                                              "circuit": glist}, outs, False)
+                # equalize_norms only where the value cannot be exactly zero (a partial amplitude can be)
+                eq = rng.choice([False, False, True]) if which != "amp" else False
+                oracle_pass(ctx, netid, tn, "full_simplify", {"seq": seq, "eq": eq, "outs": given, "circuit": glist}, outs, False)
 
 
 def hyper_output_loop_net(rng, nprng, cplx):
